@@ -182,7 +182,7 @@ Proof.
 Qed.
 Lemma data_wake s : data_same s (wake_pump_closed s).
 Proof.
-  unfold wake_pump_closed. destruct (pump_owner s) as [p|]; [|ds].
+  unfold wake_pump_closed. destruct (closed s); [|ds]. destruct (pump_owner s) as [p|]; [|ds].
   destruct (is_ppwait (t_pc (tasks s p))); ds.
 Qed.
 Lemma flags_push s t f :
@@ -196,8 +196,9 @@ Lemma flags_wake s :
   failing (wake_pump_closed s) = failing s /\ shut (wake_pump_closed s) = shut s /\ closed (wake_pump_closed s) = closed s /\
   table (wake_pump_closed s) = table s /\ next_sid (wake_pump_closed s) = next_sid s.
 Proof.
-  unfold wake_pump_closed. destruct (pump_owner s) as [p|]; [|repeat split; reflexivity].
-  destruct (is_ppwait (t_pc (tasks s p))); repeat split; reflexivity.
+  unfold wake_pump_closed. destruct (closed s) eqn:Ec; [|repeat split; try reflexivity; exact Ec].
+  destruct (pump_owner s) as [p|]; [|repeat split; try reflexivity; exact Ec].
+  destruct (is_ppwait (t_pc (tasks s p))); repeat split; try reflexivity; exact Ec.
 Qed.
 
 Theorem step_classify s t s' : Inv s -> step s t = Some s' -> step_class s t s'.
